@@ -435,6 +435,14 @@ Theorem C06_manifest_types_from_source :
 Proof. exact manifest_types_from_source. Qed.
 Print Assumptions C06_manifest_types_from_source.
 
+(* the order of effects the hand-written step functions mirror (store before index before
+   restore, stat before rename before index before tag, untag before graph.Remove before
+   storage.Delete, Load before ReadAll before LoadOrStore and no plain Store, ...) is the
+   order of the calls in the Go sources as re-read on every run *)
+Theorem C06_call_order_from_source : forallb (fun x => x) call_order_checks = true.
+Proof. exact call_order_from_source. Qed.
+Print Assumptions C06_call_order_from_source.
+
 (* ---- the hypotheses are satisfiable: a concrete universe and history (Proofs/Stores.v) ---- *)
 Example C06_ex_U_dig : forall g, k_dig (ex_U g) = g.
 Proof. exact ex_U_dig. Qed.
